@@ -3,32 +3,55 @@ SPEC = dict(
     lean_project="HvNet", props_module="HvNet.Props.C41", driver="hvdrv_net",
     harness="hv_net", bin="hv_net", mode="c41",
     cases={"quick": 400, "thorough": 6000},
+    refuted=["HvNet.Emit.completed_program_accepted_refuted"],
     level="proof",
     design_ref="DESIGN.md §5 C41",
-    technique="Lean 4 proof (graph projection + rank certificate) over an abstract IR->DFIR emission model + generated Hydro programs compiled by the production builder (runtime: IR -> flat graph -> partition_graph -> as_code; build time: rustc on a fixed sample)",
-    level_text=("PARTIAL. Theorem emitted_graph_no_same_tick_cycle: for every abstract IR (nodes with inputs, shared tees, CycleSink/"
-                "CycleSource, DeferTick, network send/receive halves, any pipeline lengths and wiring positions), if every IR dependency "
-                "cycle passes through a DeferTick or a network channel then the emitted operator graph has no cycle of non-delaying edges, "
-                "i.e. nothing for partition_graph to reject (proved by projecting emitted paths onto IR paths); rank_certifies_acyclic and "
-                "accepted_ir_emits_acyclic_graph make the model's executable verdict sound for that hypothesis. Tie: a tape-driven "
-                "generator composes Hydro programs over the public API (map/filter/clone(tee)/batch/all_ticks/fold/max/first/chain/"
-                "cross_singleton/unique/sort/enumerate/defer_tick, tick cycles, top-level forward references, network round trips "
-                "between two processes); each is compiled in-process by FlowBuilder + generate_embedded (the production path incl. "
-                "partition_graph and as_code). The harness extracts the abstract IR from the real HydroRoot/HydroNode tree, the model "
-                "must predict accept / reject-cycle and the projection of the real emitted DFIR graph onto the IR nodes owning its "
-                "operators (edge for edge, delay flags included); an independent oracle requires: no undelayed IR cycle => compiles, "
-                "undelayed cycle => rejected with the same-tick-cycle diagnostic, anything else (panic in emission / as_code) is a "
-                "violation. 24 generated programs are emitted in build.rs and compiled by rustc with the harness."),
-    level_note=("NOT modelled: Rust typing of the generated code ('the generated Rust compiles' is decided by rustc on the 24 sampled "
-                "programs only); operator-internal code generation; the simulator builder (sim feature) is not exercised; singleton "
-                "references inside closures (handoff references / access groups), clusters, atomic regions, keyed collections and "
-                "external ports are outside the generator. A top-level forward reference closed on itself without a DeferTick/network "
-                "hop type-checks and is rejected by partition_graph with the 'Cyclical dataflow within a tick' diagnostic: this is the "
-                "hypothesis of the theorem (reading of 'completes all of its forward references and tick cycles'), the model and the "
-                "oracle expect exactly that rejection."),
+    technique="PARTIAL: Lean 4 proof (graph projection + rank certificate) over an abstract model of the Hydro IR -> DFIR emission; correspondence of that model with generated Hydro programs compiled in-process by the production builder (IR -> flat graph -> partition_graph -> as_code); 'the generated Rust compiles' only sampled (rustc on a fixed set of 24 generated programs at harness build time)",
+    level_text=("PARTIAL. (1) PROVED, on an abstraction. Model/Emit.lean: an IR is a list of nodes (kind: source, operator, tee, "
+                "DeferTick, CycleSource c, CycleSink c, network send half, network receive half, sink; inputs); emitEdge is the "
+                "non-delaying edge relation of the emitted operator graph, over-approximated: every IR node owns a forward pipeline of "
+                "operators, any operator of a producer may feed any operator of its consumer, consumers of a CycleSource are wired to "
+                "the CycleSink's operators (`cycle_c = input -> identity()`, the CycleSource itself emits nothing), edges into a "
+                "DeferTick (`defer_tick_lazy()`) are the only delaying ones, the two halves of a Network node are not connected. "
+                "Theorem emitted_graph_no_same_tick_cycle: for EVERY such IR, under the hypothesis that the IR dependency graph "
+                "without the edges into DeferTicks (and without network send->receive links) has no cycle, emitEdge has no cycle, for "
+                "any pipeline lengths and wiring positions. rank_certifies_acyclic / accepted_ir_emits_acyclic_graph: the executable "
+                "verdict `accepts` the driver prints is sound for that hypothesis (accepts = true => no emitEdge cycle; the converse, "
+                "reject => real cycle, is correspondence-only). predictedEdges_sound: every non-delaying edge of the projection the "
+                "driver predicts (and the harness compares with the real graph) is an emitEdge, so the observed graphs lie inside the "
+                "relation the theorem is about. The hypothesis is NOT implied by 'type-checks and completes all forward references': "
+                "completed_program_accepted_refuted proves that the clause as stated (CompletedProgramAcceptedStatement) fails on the "
+                "model for a top-level forward reference closed through local operators only, and the real builder rejects exactly "
+                "that program with 'Cyclical dataflow within a tick' although ForwardHandle::complete documents asynchronous cycles "
+                "outside a tick as allowed (finding F41, known). Only pipe edges are modelled: handoff references (singleton refs "
+                "captured in closures), access groups and DFIR loop blocks, which partition_graph also counts as same-tick "
+                "dependencies, are not. (2) CORRESPONDENCE ONLY. A tape-driven generator composes Hydro programs over the public "
+                "API from 26 operator kinds (top-level map/filter/clone(tee)/batch/send/merge_ordered, tick map/clone/all_ticks/fold/"
+                "max/first/chain/cross_singleton/filter_not_in/unique+sort/enumerate/defer_tick, singleton and optional operators, "
+                "tick cycles, top-level and tick-level forward references, network round trips between two processes); each program "
+                "is built with FlowBuilder and compiled in-process by generate_embedded (production path: emit_core, "
+                "eliminate_extra_unions_tees, partition_graph, as_code -- no rustc). The harness extracts the abstract IR from the "
+                "real HydroRoot/HydroNode tree; the model must predict accept / reject-cycle and, edge for edge with delay flags, the "
+                "projection of the real emitted DFIR graph onto the IR nodes owning its operators. Independent oracle on the real "
+                "builder: no undelayed local IR cycle => compiles; undelayed cycle through a tick-level forward reference (excluded "
+                "by the documented contract of complete) => rejected with the same-tick-cycle diagnostic; undelayed cycle closed "
+                "by top-level forward references only => must compile (fails: F41); any other failure (panic in emission / as_code) "
+                "is a violation. (3) SAMPLED ONLY. 'and compile': 24 fixed generated programs are emitted in build.rs and compiled by "
+                "rustc together with the harness; a program of the sample that the builder refuses is reported by the check."),
+    level_note=("NOT modelled / not verified: Rust typing of the generated code (decided by rustc on the 24 sampled programs only, "
+                "never for the programs generated at check time); operator-internal code generation; the simulator builder "
+                "(hydro_lang::sim, feature `sim`) is not exercised at all although the property's quantifier names it (its compile path "
+                "ends in a cargo-built dylib and has no in-process entry point); only Process locations (two of them) are used -- no "
+                "clusters, externals, atomic regions, keyed collections; singleton references inside closures (handoff references / "
+                "access groups) are outside both the model and the generator, so a same-tick cycle through such a reference is not "
+                "covered by the theorem. The abstract-IR extraction in the harness and the owner mapping by DFIR variable names are "
+                "trusted glue. F41 (known): `let (h, s) = p.forward_ref(); h.complete(input.merge_ordered(s, ..).map(..))` on a "
+                "Process type-checks, completes its forward reference, and is rejected by partition_graph; model and oracle agree on "
+                "the rejection, the oracle reports it under the signature top-level-forward-ref-local-cycle-rejected-as-same-tick-cycle."),
     trusted_base=["rustc for the type-correctness of generated code (sampled programs only)",
                   "abstract-IR extraction from HydroNode (harness/hv_net/src/c41.rs) and the operator-owner mapping by DFIR variable names",
-                  "emission modelled as an over-approximation (any pipeline position may feed any position); real per-operator codegen only exercised"],
-    assumptions=["every IR dependency cycle passes through a DeferTick (tick cycle) or a network channel (hypothesis of the theorem)",
-                 "programs are built from the generator's operator set on two processes"],
+                  "emission modelled as an over-approximation (any pipeline position may feed any position); real per-operator codegen only exercised",
+                  "partition_graph itself (its cycle detection is C19/C17's subject); here only: no cycle of non-delaying pipe edges is handed to it"],
+    assumptions=["every IR dependency cycle passes through a DeferTick (tick cycle) or a network channel (hypothesis of the theorem; refuted as a consequence of well-typedness: F41)",
+                 "programs are built from the generator's operator set on two processes; only pipe edges carry same-tick dependencies (no handoff references / access groups / loop blocks)"],
 )
